@@ -270,6 +270,34 @@ def tla_to_py(s):
 _RE_VERDICT = re.compile(r'^<<"VERDICT", (.*)>>\s*$', re.M)
 
 
+def _verdict_texts(out):
+    """all <<"VERDICT", ...>> tuples in TLC output (they may be pretty-printed over several lines)"""
+    res = []
+    pos = 0
+    while True:
+        i = out.find('"VERDICT"', pos)
+        if i < 0:
+            return res
+        st = out.rfind("<<", 0, i)
+        depth, j = 0, st
+        while j < len(out):
+            if out.startswith("<<", j):
+                depth += 1
+                j += 2
+                continue
+            if out.startswith(">>", j):
+                depth -= 1
+                j += 2
+                if depth == 0:
+                    break
+                continue
+            if out[j] == '"':
+                j = out.index('"', j + 1)
+            j += 1
+        res.append(out[st:j])
+        pos = j
+
+
 def _clean(x):
     """JSON for TLC: no nulls (dropped), no floats, tuples -> lists."""
     if isinstance(x, dict):
@@ -328,16 +356,26 @@ def validate_traces(module, cfg, scenarios, workdir, shards=16, timeout=3600, ta
                 raise TLCError("trace validation JVM failed (%s shard %d):\n%s" % (module, si, out[-3000:]))
             st["states"] += r.distinct
             st["transitions"] += r.generated
-            for m in _RE_VERDICT.finditer(out):
-                v = tla_to_py("<<" + m.group(1) + ">>")
+            for txt in _verdict_texts(out):
+                v = tla_to_py(txt)[1:]
                 tid = v[0]
                 g = chunks[si][tid - 1]
-                verdicts[g] = {
+                new = {
                     "v": v[1],
                     "line": v[2],
                     "why": sorted(v[3]["$set"]) if isinstance(v[3], dict) else v[3],
                     "dev": sorted(v[4]["$set"]) if len(v) > 4 and isinstance(v[4], dict) else [],
                 }
+                old = verdicts[g]
+                # a nondeterministic specification may give several verdicts: ACCEPT (with the fewest deviations)
+                # wins, otherwise the rejection that got furthest
+                if old is None:
+                    verdicts[g] = new
+                elif new["v"] == "ACCEPT":
+                    if old["v"] != "ACCEPT" or len(new["dev"]) < len(old["dev"]):
+                        verdicts[g] = new
+                elif old["v"] != "ACCEPT" and new["line"] > old["line"]:
+                    verdicts[g] = new
     missing = [i for i, v in enumerate(verdicts) if v is None]
     if missing:
         raise TLCError("no verdict for scenarios %s of %s (trace spec is not total)" % (missing[:10], module))
